@@ -93,7 +93,7 @@ def main():
             dst = os.path.join(VERIF, "seeded", keep)
             os.makedirs(dst, exist_ok=True)
             for fn in os.listdir(d):
-                if fn in ("patch.diff", "demo.py", "notes.md") or fn.startswith("demo") or fn.startswith("test_"):
+                if (fn in ("patch.diff", "demo.py", "notes.md") or fn.startswith("demo") or fn.startswith("test_")) and os.path.realpath(d) != os.path.realpath(dst):
                     shutil.copy(os.path.join(d, fn), os.path.join(dst, fn))
             meta = {"property": prop, "source": "independent sub-agent (given only the property text and a scratch worktree)",
                     "confirmed": {k: out.get(k) for k in ("applies", "compiles", "tests_pass", "tests_tail", "demo_fails_with_patch", "demo_passes_without")},
